@@ -212,6 +212,16 @@ def run(spec, ctx):
                             [{"op": "test", "path": "/arr/1/0", "value": y}, {"op": "replace", "path": "/n", "value": "guarded"}]):
                     check(ctx, doc, ops, "test-equality")
                     n += 1
+        for depth in (99, 101, 150, 300):   # equal for `depth` levels, different (or not) only at the bottom
+            for shape in ("arrays", "objects"):
+                for x, y in ((True, 1), (0, False), (1, 1.0), (2 ** 53, 2 ** 53 + 1), ("a", "a"), ([], {}), (None, None)):
+                    def nest(leaf):
+                        v = leaf
+                        for _ in range(depth):
+                            v = [v] if shape == "arrays" else {"k": v}
+                        return v
+                    check(ctx, {"d": nest(x)}, [{"op": "test", "path": "/d", "value": nest(y)}, {"op": "copy", "from": "/d", "path": "/e"}], "test-equality-deep")
+                    n += 1
         ctx.bulk(n)
         ctx.count("test_equality_pairs", n)
         return
